@@ -190,6 +190,21 @@ def run(c):
     if rc != 0:
         c.fail_tool("record harness failed rc=%s %s" % (rc, (so or "")[-500:]))
     rs = json.load(open(resj))
+    # binding self-check (DESIGN.md S6): three synthetic events built from a SPEC encoding, independent of the
+    # code under test: faithful -> must be accepted; re-encoding corrupted -> reenc-differs; model corrupted -> spec-differs
+    synth = {}
+    base = next((k for k in cases if k["e"]["rep"] and k["e"]["full"] and k["m"]["pl"]["k"] == "raw" and k["m"]["path"]["k"] == "empty"
+                 and k["m"]["dst"]["k"] == "v4" and k["m"]["src"]["k"] == "v4" and k["m"]["flow"] < 1048576), None)
+    if base:
+        n0 = len(read_ndjson(ev))
+        good = {"ev": "dec", "src": "synthetic", "level": "raw", "bytes": base["e"]["full"], "rest": 0, "model": base["m"],
+                "reenc_ok": True, "reenc": list(base["e"]["full"]), "reenc_err": ""}
+        bad1 = dict(good, reenc=[b ^ (1 if i == 20 else 0) for i, b in enumerate(base["e"]["full"])])
+        bad2 = dict(good, model=dict(base["m"], tc=(base["m"]["tc"] + 1) % 256))
+        with open(ev, "a") as f:
+            for e2 in (good, bad1, bad2):
+                f.write(json.dumps(e2, separators=(",", ":")) + "\n")
+        synth = {n0 + 1: None, n0 + 2: "reenc-differs", n0 + 3: "spec-differs"}
     rt = c.tlc(SD, "Trace_WireFormat", mode="trace", env={"TRACE": ev}, timeout=3000)
     txt = open(rt.out_path, errors="replace").read()
     tot = re.findall(r'<<"TOTALS", (\d+), (\d+), (\d+)>>', txt)
@@ -197,8 +212,12 @@ def run(c):
         c.fail_tool("Trace_WireFormat did not process the whole event file (see %s)" % rt.out_path)
     nev, ncanon, nbad = map(int, tot[-1])
     events = read_ndjson(ev)
+    got_synth = {}
     for mm in re.finditer(r'<<"BAD", (\d+), "([^"]+)", (\d+)>>', txt):
         i, verdict, off = int(mm.group(1)), mm.group(2), int(mm.group(3)) - 1
+        if i in synth:
+            got_synth[i] = verdict
+            continue
         e = events[i - 1]
         b = e["bytes"]
         if verdict == "decoder-panic":
@@ -226,6 +245,11 @@ def run(c):
                 "spec-differs": "the decoded model of a canonical encoding is not the model the independent decoder reads: its reference encoding differs at offset %d (%s)" % (off, reg),
                 }[verdict]
         c.violation("Trace:%s:%s:%s" % (e["level"], verdict, reg), what + " [%s string, %d bytes]" % (e.get("src"), len(b)), {"event": e})
+    if synth and any(got_synth.get(i) != want for i, want in synth.items()):
+        c.fail_tool("binding self-check failed: Trace_WireFormat judged the synthetic events %s, expected %s" % (got_synth, synth))
+    nev -= len(synth)
+    ncanon -= len(synth)
+    nbad -= len([1 for v in synth.values() if v])
     if rs.get("strings", 0) == 0:
         c.fail_tool("record driver produced no byte strings")
     if ncanon == 0 or rs.get("accepted_udp", 0) == 0 or rs.get("accepted_scmp", 0) == 0 or rs.get("accepted_src_mutated", 0) == 0:
